@@ -328,6 +328,8 @@ def main(argv=None):
                 lines.append(f"KNOWN-FINDING: property={prop} " + (kf[0]["what"] if kf else cov[6:]))
                 continue
             if not ok and cov not in getattr(c, "allow_uncovered", ()):
+                if any(v["status"] == "refuted" for v in r["verdicts"]):
+                    continue  # the case already has a refuted obligation: an unreachable outcome is its consequence
                 lines.append(f"CHECKER-ERROR case={c.name}: cover '{cov}' unreachable (vacuous contract clause)")
                 bump(3)
         verdicts = list(r["verdicts"])
@@ -448,6 +450,17 @@ def main(argv=None):
         lines.append(l)
     if xcheck["disagreements"]:
         bump(3)
+    for h in xcheck.get("history", []):
+        o = dict(full=f"{prop}/{h['case']}/answer-independent-of-earlier-calls-in-the-process", module=h["module"],
+                 case=h["case"], name="answer-independent-of-earlier-calls-in-the-process", prims=h["prims"],
+                 detail=("in a fresh process the real code answers " + json.dumps(h["fresh"].get("obs", h["fresh"].get("outcome")), default=str)[:200]
+                         + "; after the earlier sampled calls of this case in the same process it answers "
+                         + json.dumps(h["after_history"].get("obs", h["after_history"].get("outcome")), default=str)[:200]))
+        rp = write_replay(prop, o, dict(fresh=h["fresh"], after_history=h["after_history"], history=h["history"]))
+        lines.append(f"VIOLATION property={prop} replay={rp}")
+        lines.append(f"  obligation {o['full']} refuted: {o['detail']}; inputs {json.dumps(h['prims'], default=str)[:300]}")
+        confirmed_any.append(rp)
+        bump(1)
     # ---------------------------------------------------------------- known findings: stored witnesses
     kf_lines, kf_report = check_known_witnesses(prop, known, obligations, bounded_report)
     lines += kf_lines
@@ -678,6 +691,7 @@ def run_crosscheck(cases, pool, seed, tier):
     lines = []
     dis = 0
     k = 0
+    mism = []  # (module, case, prims, engine outcome, native outcome, index of the native job)
     for (m, c, prims), eouts in zip(meta, eng_out):
         compared = 0
         for p, eo in zip(prims, eouts):
@@ -697,14 +711,40 @@ def run_crosscheck(cases, pool, seed, tier):
                 dis += 1
                 lines.append(f"CHECKER-ERROR cross-check {c.name}: outcome engine={eo['outcome']} "
                              f"cpython={no.get('outcome')} on {p}")
+                mism.append((m, c, p, eo, no, k - 1, len(lines) - 1))
                 continue
             if eo["outcome"] == "return":
                 nobs = no.get("obs", no.get("result"))
                 if _norm(eo["obs"]) != _norm(no.get("obs_native", nobs)):
                     dis += 1
                     lines.append(f"CHECKER-ERROR cross-check {c.name}: value engine={eo['obs']} cpython={nobs} on {p}")
+                    mism.append((m, c, p, eo, no, k - 1, len(lines) - 1))
         report[c.name] = compared
-    return dict(report=dict(samples_compared=report, disagreements=dis), lines=lines[:20], disagreements=dis)
+    # A disagreement may be the CODE's fault rather than the verifier's: the CPython side evaluates all samples in ONE
+    # process, the verifier evaluates each on its own.  Each disagreeing sample (first few) is therefore re-run under
+    # CPython in a FRESH process: if CPython then agrees with the verifier, the answer of the real code depends on the
+    # calls that came before it in the process - a failing call history, reported as a violation with the history.
+    history = []
+    drop = set()
+    for (m, c, p, eo, no, idx, li) in mism[:6]:
+        try:
+            fresh = run_native([dict(module=m, case=c.name, prims=p)])[0]
+        except Exception:
+            continue
+        same = fresh.get("outcome") == eo["outcome"] and (
+            eo["outcome"] != "return" or _norm(eo["obs"]) == _norm(fresh.get("obs_native", fresh.get("obs", fresh.get("result")))))
+        if same:
+            history.append(dict(module=m, case=c.name, prims=p, fresh=fresh, after_history=no,
+                                history=[j["prims"] for j in native_jobs[:idx] if j["case"] == c.name][-50:]))
+            drop.add(li)
+    if history:
+        # every disagreement of a case with a confirmed history dependence is attributed to it
+        bad_cases = {h["case"] for h in history}
+        keep = [l for i_, l in enumerate(lines) if not any(f"cross-check {bc}:" in l for bc in bad_cases)]
+        dis = len(keep)
+        lines = keep
+    return dict(report=dict(samples_compared=report, disagreements=dis, history_dependent=[h["case"] for h in history]),
+                lines=lines[:20], disagreements=dis, history=history)
 
 
 def _norm(x):
